@@ -26,6 +26,9 @@ pub enum Tmo {
     None,
     Zero,
     T,
+    /// `Duration::MAX`, the idiom for "never": a finite timeout that cannot
+    /// pass within any history
+    Max,
 }
 
 impl Tmo {
@@ -34,6 +37,7 @@ impl Tmo {
             Tmo::None => None,
             Tmo::Zero => Some(Duration::ZERO),
             Tmo::T => Some(Duration::from_millis(T_MS)),
+            Tmo::Max => Some(Duration::MAX),
         }
     }
     fn ms(self) -> Option<u64> {
@@ -41,14 +45,15 @@ impl Tmo {
             Tmo::None => None,
             Tmo::Zero => Some(0),
             Tmo::T => Some(T_MS),
+            Tmo::Max => Some(1 << 40),
         }
     }
     fn nonzero(self) -> bool {
-        self == Tmo::T
+        matches!(self, Tmo::T | Tmo::Max)
     }
 }
 
-const TMOS: [Tmo; 3] = [Tmo::None, Tmo::Zero, Tmo::T];
+const TMOS: [Tmo; 4] = [Tmo::None, Tmo::Zero, Tmo::T, Tmo::Max];
 
 #[derive(Clone, Copy, Debug, PartialEq, Eq, Hash)]
 pub enum PState {
@@ -71,6 +76,8 @@ pub struct TimeScenario {
     pub with_runtime: bool,
     pub state: PState,
     pub max_events: usize,
+    /// sweep the order / flavour of the builder calls as well
+    pub builder_sweep: bool,
 }
 
 fn triple(t: (Tmo, Tmo, Tmo)) -> Timeouts {
@@ -78,7 +85,7 @@ fn triple(t: (Tmo, Tmo, Tmo)) -> Timeouts {
 }
 
 fn pick_triple() -> (Tmo, Tmo, Tmo) {
-    (TMOS[choose_free(3)], TMOS[choose_free(3)], TMOS[choose_free(3)])
+    (TMOS[choose_free(4)], TMOS[choose_free(4)], TMOS[choose_free(4)])
 }
 
 pub fn run_time(sc: &TimeScenario) -> Outcome {
@@ -99,6 +106,8 @@ async fn run_inner(sc: &TimeScenario) -> Outcome {
     cfg.create_menu = vec![Out::Ok, Out::Err, Out::PendOk, Out::Never];
     cfg.recycle_menu = vec![Out::Ok, Out::Err, Out::PendOk, Out::Never];
     cfg.auto_gates = false;
+    // the timeouts reach the pool through any order / flavour of builder calls
+    cfg.builder_sweep = sc.builder_sweep;
     init_world(cfg, &["C10"]);
     w(|w| w.allow_timeouts = true);
     let runtime = if sc.with_runtime { Some(Runtime::Tokio1) } else { None };
@@ -759,8 +768,8 @@ async fn run_uinner(sc: &UTimeScenario) -> Outcome {
         }
     };
     let runtime = if sc.with_runtime { Some(Runtime::Tokio1) } else { None };
-    let pool_tmo = TMOS[choose_free(3)];
-    let per_call = if choose_free(2) == 1 { Some(TMOS[choose_free(3)]) } else { None };
+    let pool_tmo = TMOS[choose_free(4)];
+    let per_call = if choose_free(2) == 1 { Some(TMOS[choose_free(4)]) } else { None };
     let eff = per_call.unwrap_or(pool_tmo);
     // 0 = one object available, 1 = empty, 2 = closed
     let state = choose_free(3);
